@@ -250,13 +250,52 @@ func TestC21(t *testing.T) {
 
 		// Path B (every case): through the compiler and VM
 		name := mt.UniqueName("c21p")
-		src := fmt.Sprintf("histogram h buckets %s\nhistogram hk by k buckets %s\nhistogram hi buckets %s\n/^(\\S+) (\\S+)$/ {\n  h = float($2)\n  hk[$1] = float($2)\n}\n/^int:(-?\\d+)$/ {\n  hi = $1\n}\n", boundsLit(declared), boundsLit(declared), boundsLit(declared))
+		src := fmt.Sprintf("histogram h buckets %s\nhistogram hk by k buckets %s\nhistogram hi buckets %s\n/^(\\S+) (\\S+)$/ {\n  h = float($2)\n  hk[$1] = float($2)\n}\n/^int:(-?\\d+)$/ {\n  hi = $1\n}\nhistogram hd by k buckets %s\n/^d (\\S+) (\\S+)$/ {\n  hd[$1] = float($2)\n}\n/^deld:(\\S+)$/ {\n  del hd[$1]\n}\n", boundsLit(declared), boundsLit(declared), boundsLit(declared), boundsLit(declared))
 		p, err := mt.Load(name, src, mt.VMOpts{})
 		if err != nil {
 			r.Violation("compile-rejected", witness{"compiler", fss(declared), nil, err.Error(), nil, nil, src})
 			return
 		}
 		defer p.Close()
+		// label sets that come and go: observations under p, p deleted, the rest
+		// under q, q deleted, the first part again under p — every label set
+		// starts from nothing, whatever was there before
+		if len(obs) >= 2 {
+			var mhd *metrics.Metric
+			for _, m := range p.Obj.Metrics {
+				if m.Name == "hd" {
+					mhd = m
+				}
+			}
+			cut := 1 + g.Intn(len(obs)-1)
+			for round, part := range []struct {
+				key string
+				vs  []float64
+			}{{"p", obs[:cut]}, {"q", obs[cut:]}, {"p", obs[:cut]}} {
+				rfp := newRef(declared)
+				for _, v := range part.vs {
+					if p.Line("f", "d "+part.key+" "+fs(v)) {
+						report("vm", "runtime error on observation "+fs(v)+": "+p.VM.RuntimeErrorString(), false, nil, nil, src)
+						return
+					}
+					rfp.observe(v)
+				}
+				d, err := mhd.GetDatum(part.key)
+				if err != nil {
+					report("vm", "GetDatum: "+err.Error(), false, nil, nil, src)
+					return
+				}
+				if what, known, got, want := compareDatum(d, rfp, declared); what != "" && !known {
+					report(fmt.Sprintf("dimensioned histogram, label set %q created after another label set was deleted (round %d)", part.key, round), what, false, got, want, src)
+					return
+				}
+				if p.Line("f", "deld:"+part.key) {
+					report("vm", "runtime error on del: "+p.VM.RuntimeErrorString(), false, nil, nil, src)
+					return
+				}
+				r.Count("label_sets_created_after_a_deletion", 1)
+			}
+		}
 		rfInt := newRef(declared) // what the Int-typed path must produce
 		for _, v := range obs {
 			if p.Line("f", "x "+fs(v)) {
@@ -281,7 +320,7 @@ func TestC21(t *testing.T) {
 				mh = m
 			case "hk":
 				mhk = m
-			default:
+			case "hi":
 				mhi = m
 			}
 		}
